@@ -94,7 +94,8 @@ impl Cfg {
 /// the pool-level finite timeout; every per-call finite timeout is shorter and its own power of two
 const POOL_DUR_MS: u64 = 1 << 40;
 fn task_dur(t: usize) -> Duration {
-    Duration::from_millis(1u64 << (t as u32 % 36))
+    // task 0: 300 us (a finite timeout below one millisecond is still not zero), then doubling
+    Duration::from_micros(300u64 << (t as u32 % 36))
 }
 fn err_code(e: PoolError) -> i64 {
     match e {
@@ -240,7 +241,10 @@ impl World {
     }
     /// the strictly earliest active deadline and its task
     fn next_deadline(&self) -> Option<(usize, Duration)> {
-        let mut v: Vec<(Duration, usize)> = self.deadline.iter().map(|(t, d)| (*d, *t)).collect();
+        // tokio's timers have a resolution of one millisecond: a deadline fires at the next full
+        // millisecond, so that is what the clock is advanced to and what has to be strictly earliest
+        let ceil_ms = |d: &Duration| Duration::from_millis((d.as_micros() as u64 + 999) / 1000);
+        let mut v: Vec<(Duration, usize)> = self.deadline.iter().map(|(t, d)| (ceil_ms(d), *t)).collect();
         v.sort();
         match v.len() {
             0 => None,
